@@ -232,7 +232,7 @@ def run_scripts(binary, scripts, subjects, mutate=None, shards=8):
     inp = dict(subjects=subjects, scripts=scripts, attempts=6)
     if mutate:
         inp["mutate"] = mutate
-    return vlib.run_driver_parallel(binary, inp, shards=shards, timeout=1500)
+    return vlib.run_driver_parallel(binary, inp, shards=shards, timeout=2400)
 
 
 def validate_bounded(traces, canary_only=False, canary=30, chunk=100, max_rej=12):
@@ -329,7 +329,7 @@ def run(prop, tier, seed, replay=None):
     subjects = ["s1", "s2"]
     gens = [("Subject.genall.cfg", None), ("Subject.gen.quick.cfg", 350 if quick else None)]
     if not quick:
-        gens.append(("Subject.gen.thorough.cfg", 3000))
+        gens.append(("Subject.gen.thorough.cfg", 2500))
     scripts, n_beh = hand_scripts(), 0
     for cfg, cap in gens:
         g, beh = generate(cfg, timeout=1500)
@@ -346,7 +346,7 @@ def run(prop, tier, seed, replay=None):
     # sequential set-up); thorough adds the interleavings with one injected network failure
     concs = [("Subject.conc.genall0.cfg", 260 if quick else None)]
     if not quick:
-        concs.append(("Subject.conc.genall.cfg", 2500))
+        concs.append(("Subject.conc.genall.cfg", 1200))
     n_conc = 0
     for cfg, cap in concs:
         g, cs = conc_behaviours(cfg, timeout=1500)
@@ -363,7 +363,9 @@ def run(prop, tier, seed, replay=None):
                 n_conc += 1
     by_id = {s["id"]: s for s in scripts}
 
+    phases = {"tlc_s": round(time.time() - t0, 1)}
     # 3. replay on the real code
+    t1 = time.time()
     results = run_scripts(binary, scripts, subjects)
     if len(results) != len(scripts):
         raise Inconclusive("driver returned %d results for %d scripts" % (len(results), len(scripts)))
@@ -376,6 +378,8 @@ def run(prop, tier, seed, replay=None):
         rep.inconclusive = []
     counts = judge(rep, prop, results, by_id, subjects)
 
+    phases["replay_s"] = round(time.time() - t1, 1)
+    t1 = time.time()
     # 4. recorded traces of the real code are validated by TLC against the specification
     traces = [r["trace"] for r in results if not r.get("error")]
     rnd.shuffle(traces)
@@ -406,6 +410,7 @@ def run(prop, tier, seed, replay=None):
         if counts.get(cls, 0) == 0 and vlib.match_known(prop, {"class": cls}):
             rep.notes.append("NOTE: known finding class %s was not reproduced in this run" % cls)
 
+    phases["trace_validation_s"] = round(time.time() - t1, 1)
     orders, outcomes, miss = {}, {}, 0
     for r in results:
         miss += r.get("order_miss", 0)
@@ -420,7 +425,7 @@ def run(prop, tier, seed, replay=None):
             samples.append(dict(script=by_id[r["id"]]["steps"], violations=r["violations"][:3]))
     cov = dict(states=states, transitions=transitions, traces_validated_against_impl=validated, traces_accepted=acc,
                traces_rejected=len(rej), samples=samples, models=models, behaviours_available=n_beh,
-               behaviours_replayed_on_real_code=len(results), concurrent_schedules_replayed=n_conc, oracle_evaluations=sum(r.get("checks", 0) for r in results),
+               behaviours_replayed_on_real_code=len(results), concurrent_schedules_replayed=n_conc, phase_wall_s=phases, oracle_evaluations=sum(r.get("checks", 0) for r in results),
                operation_outcomes=outcomes, stop_between_commits_orders=mid, scripts_with_unrealised_order=miss,
                violations_by_class=counts, action_coverage=cover, exhaustive=(len(scripts) - len(hand_scripts()) == n_beh),
                rule="fault enumeration: TLC exhausts Subject.tla (op sequences x a network failure or a process stop at every step boundary "
